@@ -791,8 +791,14 @@ func (i *biterator) SeekGE(item *kvitem) {
 	}
 }
 
+// seek to the last key that less than or equal to the target key
 func (i *biterator) SeekForPrev(key []byte) {
-	i.SeekLT(&kvitem{key: key})
+	item := &kvitem{key: key}
+	i.SeekGE(item)
+	if i.n != nil && i.Valid() && i.cmp(i.Cur(), item) == 0 {
+		return
+	}
+	i.SeekLT(item)
 }
 
 // SeekLT seeks to the first item less-than the provided item.
